@@ -241,12 +241,14 @@ func (rd *HandlingDataManager) initializeStreams() (err error) {
 	if err != nil {
 		return fmt.Errorf("failed to create stream: %w", err)
 	}
-	rd.stream = stream
-	rd.stream.WithHub(rd.lunarHub)
-	verifhook.Yield("streams.published", "")
-	if err = rd.stream.Initialize(); err != nil {
+	stream.WithHub(rd.lunarHub)
+	if err = stream.Initialize(); err != nil {
 		return fmt.Errorf("failed to initialize streams: %w", err)
 	}
+	// Publish the new stream only once it is fully built: transactions handled
+	// meanwhile keep using the previous one instead of an empty, half-built stream.
+	rd.stream = stream
+	verifhook.Yield("streams.published", "")
 
 	rd.stream.InitializeHubCommunication()
 	if err = config.WaitForProxyHealthcheck(); err != nil {
